@@ -31,24 +31,27 @@ variable (cfg : Cfg)
     (match recMaskOf cfg r with | some rm => keepIf (rm (evBit unk k)) (.rAttr r unk k pay) | none => none) := rfl
 @[simp] theorem proj_recEnd (r : Nat) : proj cfg (.recEnd r) = keepIf (recMaskOf cfg r).isSome (.recEnd r) := rfl
 @[simp] theorem proj_classFlags (d s : Bool) : proj cfg (.classFlags d s) = keepIf cfg.cls.isSome (.classFlags d s) := rfl
-@[simp] theorem proj_fieldBegin (i h : Nat) : proj cfg (.fieldBegin i h) = keepIf cfg.cls.isSome (.fieldBegin i h) := rfl
+@[simp] theorem proj_fieldBegin (i h : Nat) : proj cfg (.fieldBegin i h) =
+    keepIf (cfg.cls.isSome && cfg.fieldsI) (.fieldBegin i h) := rfl
 @[simp] theorem proj_fAttr (i : Nat) (unk : Bool) (k : K) (pay : Pay) : proj cfg (.fAttr i unk k pay) =
     (match cfg.cls, cfg.field i with
-      | some _, some fm => keepIf (fm (evBit unk k)) (.fAttr i unk k pay) | _, _ => none) := rfl
+      | some _, some fm => keepIf (cfg.fieldsI && fm (evBit unk k)) (.fAttr i unk k pay) | _, _ => none) := rfl
 @[simp] theorem proj_fieldFlags (i : Nat) (d s : Bool) : proj cfg (.fieldFlags i d s) =
-    keepIf (cfg.cls.isSome && (cfg.field i).isSome) (.fieldFlags i d s) := rfl
+    keepIf (cfg.cls.isSome && cfg.fieldsI && (cfg.field i).isSome) (.fieldFlags i d s) := rfl
 @[simp] theorem proj_fieldEnd (i : Nat) : proj cfg (.fieldEnd i) =
-    keepIf (cfg.cls.isSome && (cfg.field i).isSome) (.fieldEnd i) := rfl
-@[simp] theorem proj_methodBegin (i h : Nat) : proj cfg (.methodBegin i h) = keepIf cfg.cls.isSome (.methodBegin i h) := rfl
+    keepIf (cfg.cls.isSome && cfg.fieldsI && (cfg.field i).isSome) (.fieldEnd i) := rfl
+@[simp] theorem proj_methodBegin (i h : Nat) : proj cfg (.methodBegin i h) =
+    keepIf (cfg.cls.isSome && cfg.methodsI) (.methodBegin i h) := rfl
 @[simp] theorem proj_mAttr (i : Nat) (unk : Bool) (k : K) (pay : Pay) : proj cfg (.mAttr i unk k pay) =
     (match cfg.cls, cfg.method i with
-      | some _, some mc => keepIf (mc.mask (evBit unk k)) (.mAttr i unk k pay) | _, _ => none) := rfl
+      | some _, some mc => keepIf (cfg.methodsI && mc.mask (evBit unk k)) (.mAttr i unk k pay) | _, _ => none) := rfl
 @[simp] theorem proj_methodFlags (i : Nat) (d s : Bool) : proj cfg (.methodFlags i d s) =
-    keepIf (cfg.cls.isSome && (cfg.method i).isSome) (.methodFlags i d s) := rfl
+    keepIf (cfg.cls.isSome && cfg.methodsI && (cfg.method i).isSome) (.methodFlags i d s) := rfl
 @[simp] theorem proj_methodEnd (i : Nat) : proj cfg (.methodEnd i) =
-    keepIf (cfg.cls.isSome && (cfg.method i).isSome) (.methodEnd i) := rfl
+    keepIf (cfg.cls.isSome && cfg.methodsI && (cfg.method i).isSome) (.methodEnd i) := rfl
 @[simp] theorem proj_codeBegin (i : Nat) : proj cfg (.codeBegin i) =
-    (match cfg.cls, cfg.method i with | some _, some mc => keepIf mc.code (.codeBegin i) | _, _ => none) := rfl
+    (match cfg.cls, cfg.method i with
+      | some _, some mc => keepIf (cfg.methodsI && mc.code) (.codeBegin i) | _, _ => none) := rfl
 @[simp] theorem proj_codeMaxs (i h : Nat) : proj cfg (.codeMaxs i h) = keepIf (codeMaskOf cfg i).isSome (.codeMaxs i h) := rfl
 @[simp] theorem proj_codeExc (i h : Nat) : proj cfg (.codeExc i h) = keepIf (codeMaskOf cfg i).isSome (.codeExc i h) := rfl
 @[simp] theorem proj_codeEnd (i : Nat) : proj cfg (.codeEnd i) = keepIf (codeMaskOf cfg i).isSome (.codeEnd i) := rfl
@@ -59,14 +62,39 @@ variable (cfg : Cfg)
       | some cm => some (.codeInsns i (if cm .stackMapTable then fr else none) h) | none => none) := rfl
 @[simp] theorem proj_codeLines (i : Nat) (parts : List Pay) : proj cfg (.codeLines i parts) =
     (match codeMaskOf cfg i with | some cm => keepIf (cm .lineNumberTable) (.codeLines i parts) | none => none) := rfl
-@[simp] theorem proj_codeLocals (i : Nat) (parts : List (Bool × Pay)) : proj cfg (.codeLocals i parts) =
+@[simp] theorem proj_codeLocals (i : Nat) (parts : List LvPart) : proj cfg (.codeLocals i parts) =
     (match codeMaskOf cfg i with
       | some cm =>
-        if (parts.filter (fun x => if x.1 then cm .lvt else cm .lvtt)).isEmpty then none
-        else some (.codeLocals i (parts.filter (fun x => if x.1 then cm .lvt else cm .lvtt)))
+        if (lvProj cm parts).isEmpty then none
+        else some (.codeLocals i (lvProj cm parts))
       | none => none) := rfl
+
 @[simp] theorem proj_classEnd : proj cfg .classEnd = keepIf cfg.cls.isSome .classEnd := rfl
 end projEqs
+
+/-! ## `lvProj` -/
+
+@[simp] theorem lvProj_nil (cm : Mask) : lvProj cm [] = [] := rfl
+
+theorem lvProj_append (cm : Mask) (a b : List LvPart) : lvProj cm (a ++ b) = lvProj cm a ++ lvProj cm b := by
+  simp [lvProj, List.filterMap_append]
+
+theorem lvProj_d (cm : Mask) (p : Pay) : lvProj cm [(.d, p)] = if cm .lvt then [(.d, p)] else [] := by
+  cases h : cm .lvt <;> simp [lvProj, LvK.strip, h]
+
+theorem lvProj_s (cm : Mask) (p : Pay) : lvProj cm [(.s, p)] = if cm .lvtt then [(.s, p)] else [] := by
+  cases h : cm .lvtt <;> simp [lvProj, LvK.strip, h]
+
+theorem LvK.strip_all (k : LvK) : k.strip allMask = some k := by cases k <;> rfl
+
+theorem lvProj_all (parts : List LvPart) : lvProj allMask parts = parts := by
+  induction parts with
+  | nil => rfl
+  | cons x xs ih =>
+    simp only [lvProj] at ih
+    simp only [lvProj, List.filterMap_cons, LvK.strip_all, Option.map_some]
+    simp only [LvK.strip_all, Option.map_some] at ih
+    rw [ih]
 
 /-! ## leaf attributes -/
 
